@@ -363,7 +363,9 @@ def run(ctx, keep=PREFIX):
         "decision tree: every state = byte string whose proper prefixes all made get_key(full=False) return None; complete for ascii, latin-1 "
         "and for utf-8 lead bytes < 0x%s (all 256 next bytes at every state); %s; transitions = real get_key calls (3 modes x 2 values of "
         "full per state). Streams through the real find_key: every table sequence + every byte, every ordered pair of table sequences, every "
-        "Unicode scalar value alone and (every %s) next to 'a' and doubled, all-buffered and exhausted-after-each-unit. non-trivial = the "
+        "Unicode scalar value alone and (every %s) next to 'a' and doubled, all-buffered and exhausted-after-each-unit. History: all 6 orders "
+        "of the encodings x naming-mode orders call by call, then runs of 40 identical calls before each switch of encoding; 15 encoding "
+        "aliases; the paste loop over the C08 large-burst scenarios. non-trivial = the "
         "state/stream is a prefix of a valid stream (table sequences and validly encoded characters)"
         % ("F8" if ctx.thorough else "F0",
            "obsolete lead bytes 0xF8-0xFD by boundary representatives of the 17 UTF-8 byte classes (sound because for sequences starting >= 0x80 get_key "
